@@ -292,3 +292,33 @@ M("c09-id-in-name", ["C09"], IR,
   '                name = f"port${value[0].cell}${value[0].bit}"', '                name = f"port${id(value)}"', "R-09a")
 M("c09-benign-sorted-ports", ["C09"], IR,
   'for net in sorted(module.net_flow):', 'for net in sorted(sorted(module.net_flow)):', "silent")
+
+# ------------------------------------------------------------------------------------------------ C19
+RES = "amaranth/build/res.py"
+M("c19-no-rollback", ["C19"], RES,
+  '        except BaseException:\n            self._phys_reqd, self._pins, self._io_clocks = phys_reqd, pins, io_clocks\n            raise',
+  '        except BaseException:\n            raise', "R-19a")
+M("c19-rollback-misses-pins", ["C19"], RES,
+  '            self._phys_reqd, self._pins, self._io_clocks = phys_reqd, pins, io_clocks',
+  '            self._phys_reqd, self._io_clocks = phys_reqd, io_clocks', "R-19a")
+M("c19-requested-before-resolve", ["C19"], RES,
+  '        # A request that is refused must leave the allocation unchanged.',
+  '        self._requested[resource.name, resource.number] = None', "R-19b")
+M("c19-alloc-before-clash-test", ["C19"], RES,
+  '                for phys_name in phys_names:\n                    if phys_name in self._phys_reqd:',
+  '                for phys_name in phys_names:\n                    self._phys_reqd.setdefault(phys_name, path)\n                    if phys_name in self._phys_reqd:', ["R-19b", "R-19a"])
+M("c19-map-names-single-hop", ["C19"], "amaranth/build/dsl.py",
+  '            while ":" in name:', '            if ":" in name:', "R-19c")
+M("c19-metadata-sorted", ["C19"], RES,
+  '                        PortMetadata(name, attrs)\n                        for name in phys_names\n                    ])',
+  '                        PortMetadata(name, attrs)\n                        for name in sorted(phys_names)\n                    ])', "R-19c")
+M("c19-invert-dropped", ["C19"], RES,
+  'port = io.SingleEndedPort(iop, invert=phys.invert, direction=direction)', 'port = io.SingleEndedPort(iop, direction=direction)', "R-19c")
+M("c19-set-io-swapped", ["C19"], "amaranth/vendor/_siliconblue.py",
+  '                set_io {{port_name}} {{pin_name}}', '                set_io {{pin_name}} {{port_name}}', "R-19d", count=2)
+M("c19-lattice-freq-mhz", ["C19"], "amaranth/vendor/_lattice.py",
+  '                FREQUENCY PORT "{{port.name}}" {{frequency}} HZ;', '                FREQUENCY PORT "{{port.name}}" {{frequency/1000000}} HZ;', "R-19d")
+M("c19-gowin-period-inverted", ["C19"], "amaranth/vendor/_gowin.py",
+  '-period {{1000000000/frequency}} [get_nets', '-period {{frequency/1000000000}} [get_nets', "R-19d")
+M("c19-bits-metadata-shifted", ["C19"], "amaranth/build/plat.py",
+  '                    yield f"{name}[{bit}]", meta.name, meta.attrs', '                    yield f"{name}[{bit + 1}]", meta.name, meta.attrs', "R-19c")
